@@ -16,8 +16,10 @@ import (
 	"time"
 
 	"github.com/samber/lo"
+	"golang.org/x/net/websocket"
 
 	v1 "github.com/fatedier/frp/pkg/config/v1"
+	netpkg "github.com/fatedier/frp/pkg/util/net"
 
 	"verif/mc/drv"
 	"verif/mc/peek"
@@ -366,6 +368,39 @@ func runFirstBytes(mode string) (viol []string, n int, inconclusive string) {
 				}
 			}(first)
 		}
+		// the same through the websocket front door, where the connection exists (after the HTTP upgrade) before the
+		// peer has sent a single byte of the frp protocol
+		n++
+		dwg.Add(1)
+		go func() {
+			defer dwg.Done()
+			addr := fmt.Sprintf("127.0.0.1:%d", srv.Cfg.BindPort)
+			wcfg, err := websocket.NewConfig("ws://"+addr+netpkg.FrpWebsocketPath, "http://"+addr)
+			if err != nil {
+				return
+			}
+			raw, err := net.DialTimeout("tcp", addr, 2*time.Second)
+			if err != nil {
+				return
+			}
+			defer raw.Close()
+			ws, err := websocket.NewClient(wcfg, raw)
+			if err != nil {
+				return
+			}
+			ws.PayloadType = websocket.BinaryFrame
+			time.Sleep(11 * time.Second)
+			frame := append([]byte{'o'}, make([]byte, 8)...)
+			frame[8] = byte(len(login))
+			ws.Write(append(frame, login...))
+			_ = raw.SetReadDeadline(time.Now().Add(1500 * time.Millisecond))
+			reply, _ := io.ReadAll(ws)
+			if bytes.Contains(reply, []byte(`"error"`)) || bytes.Contains(reply, []byte(`"version"`)) || looksLikeFrame(reply) >= 0 {
+				dmu.Lock()
+				viol = append(viol, fmt.Sprintf("%s: a websocket peer that sent its first byte ('o', plain text) after 11 s of silence: the server interpreted a plain-text message and answered %q", mode, reply[:min(len(reply), 60)]))
+				dmu.Unlock()
+			}
+		}()
 		dwg.Wait()
 	}
 	if strings.HasPrefix(mode, "trustedca") {
